@@ -352,7 +352,27 @@ def fields_of(rd):
     return "/".join(out) if out else "_"
 
 
+class Hang(BaseException):
+    pass
+
+
+def _on_alarm(signum, frame):
+    raise Hang()
+
+
 def outcome(fn, fmt):
+    import signal
+    signal.signal(signal.SIGALRM, _on_alarm)
+    signal.alarm(6)
+    try:
+        return _outcome(fn, fmt)
+    except Hang:
+        return "FOREIGN Hang(did-not-return-in-6s)", None
+    finally:
+        signal.alarm(0)
+
+
+def _outcome(fn, fmt):
     try:
         v = fn()
     except dns.name.NeedAbsoluteNameOrOrigin:
@@ -367,6 +387,8 @@ def outcome(fn, fmt):
         return "err " + type(e).__name__, None
     except ValueError:
         return "err ValueError", None
+    except Hang:
+        raise
     except BaseException as e:  # foreign
         return "FOREIGN " + type(e).__name__, None
     return "ok " + fmt(v), v
@@ -609,6 +631,8 @@ def eval_ds(ctx, c, rep):
                 ctx.fail("C15/make_ds_rdataset/value-differs", f"{[x.to_wire().hex() for x in dsr]}", rep)
         except dns.exception.DeniedByPolicy:
             pass
+        except (dns.exception.DNSException, ValueError, TypeError, AttributeError, KeyError) as e:
+            ctx.fail("C15/ds-helpers/raises:" + type(e).__name__, f"make_cds / make_ds_rdataset raised on valid input: {e!r}", rep)
 
 
 def _txt(s: str) -> str:
@@ -840,12 +864,13 @@ def eval_signzone(ctx, c, rep):
         # a transaction that is rolled back leaves the zone alone (sign_zone must work in the caller's transaction)
         z3 = build_zone(c)
         snap = z3.to_text()
-        try:
+        def run3():
             with z3.writer() as txn:
                 dns.dnssec.sign_zone(z3, txn=txn, add_dnskey=False, rrset_signer=lambda t, rr: None)
                 txn.rollback()
-        except Exception as e:  # noqa
-            ctx.fail("C15/sign_zone/txn-route-raises", f"{e!r}", rep)
+        r3, _ = outcome(run3, lambda _: "")
+        if not r3.startswith("ok"):
+            ctx.fail("C15/sign_zone/txn-route-raises", f"sign_zone(txn=...) then rollback -> {r3}", rep)
             return
         if z3.to_text() != snap:
             ctx.fail("C15/sign_zone/txn-ignored", "sign_zone(txn=...) changed the zone although the caller rolled the transaction back", rep)
@@ -1187,7 +1212,14 @@ def eval_namedigest(ctx, c, rep):
         ctx.fail("C15/name-to_wire-or-canonicalize/value-differs", f"{n!r}: to_wire(origin) {r2} (expected {exp2}); canonicalize {cl}", rep)
 
 
-EVAL = {"digest": eval_digest, "dsargs": eval_dsargs, "namedigest": eval_namedigest, "keyid": eval_keyid, "rrsigdata": eval_rrsigdata, "ds": eval_ds, "nsec3": eval_nsec3,
+def eval_dsargs_guarded(ctx, c, rep):
+    try:
+        eval_dsargs(ctx, c, rep)
+    except (dns.exception.DNSException, ValueError, TypeError, AttributeError, KeyError) as e:
+        ctx.fail("C15/ds-helpers/raises:" + type(e).__name__, f"a DS/CDS/CDNSKEY helper raised on valid input: {e!r}", rep)
+
+
+EVAL = {"digest": eval_digest, "dsargs": eval_dsargs_guarded, "namedigest": eval_namedigest, "keyid": eval_keyid, "rrsigdata": eval_rrsigdata, "ds": eval_ds, "nsec3": eval_nsec3,
         "bitmap": eval_bitmap, "signzone": eval_signzone, "zonemd": eval_zonemd}
 
 
